@@ -108,6 +108,11 @@ def run(ck: Check) -> None:
             sub = ks[: rng.randint(0, nk)]
             for t in range(1, len(sub) + 2):
                 vcases.append((Case("vsignable", [env, [k.hex for k in sub], t, False], tag="boundary-subset", group=i), "OK" if t <= len(sub) else "E SignatureError"))
+            # a signer named several times in the authorized list is still one signer
+            dup = [k.hex for k in ks] + [ks[0].hex, ks[0].hex] + ([ks[-1].hex] if nk > 1 else [])
+            rng.shuffle(dup)
+            vcases.append((Case("vsignable", [env, dup, nk, False], tag="boundary-dup-authorized", group=i), "OK"))
+            vcases.append((Case("vsignable", [env, dup, nk + 1, False], tag="boundary-dup-authorized", group=i), "E SignatureError"))
             res = ck.run_cases([c for c, _ in vcases], "corr:verify_signable/outcome-class")
             for (c, want), r2 in zip(vcases, res):
                 ck.oracle_checks += 1
